@@ -200,6 +200,7 @@ def explore(body, *, timeout_ms=60000, seed=0, max_paths=10**6, budget_s=None,
             c.light = []
             c.quot_memo = []
             c.quotients = {}
+            c.transc = {'LOG': [], 'EXP': []}
             try:
                 body()
                 c.stats['paths'] += 1
